@@ -140,6 +140,126 @@ pub fn big_records(h: &Hdr) -> Vec<(String, Rec)> {
     out
 }
 
+/// Sparse IDX assignments at every boundary of the typed-integer widths used for dictionary
+/// indices (Int8 holds ≤ 127, Int16 ≤ 32767, above that Int32).
+pub const SPARSE_IDX: [usize; 8] = [127, 128, 255, 256, 32767, 32768, 40000, 70000];
+
+/// A header whose `zone` ids (8 of them) sit at `SPARSE_IDX`; every other id has a small explicit IDX.
+pub fn sparse_header(ff: (u32, u32), zone: Zone) -> Hdr {
+    let mut h = Hdr::new(ff);
+    let mut small = 1usize;
+    let mut next_small = || {
+        small += 1;
+        small - 1
+    };
+    let n = SPARSE_IDX.len();
+    let (n_info, n_filter, n_format) = match zone {
+        Zone::Info => (n, 2, 2),
+        Zone::Filter => (2, n, 2),
+        Zone::Format => (2, 2, n + 1),
+        Zone::Contig => (2, 2, 2),
+    };
+    for i in 0..n_info {
+        let idx = if zone == Zone::Info { SPARSE_IDX[i] } else { next_small() };
+        h.infos.push(FieldDef::new(&format!("K{i:03}"), Num::Count(1), Ty::Integer).idx(idx));
+    }
+    for i in 0..n_filter {
+        let idx = if zone == Zone::Filter { SPARSE_IDX[i] } else { next_small() };
+        h.filters.push(FilterDef { id: format!("f{i:03}"), desc: format!("filter {i}"), idx: Some(idx), other: vec![] });
+    }
+    for i in 0..n_format {
+        if i == 0 {
+            h.formats.push(FieldDef::new("GT", Num::Count(1), Ty::String).idx(next_small()));
+        } else {
+            let idx = if zone == Zone::Format { SPARSE_IDX[i - 1] } else { next_small() };
+            h.formats.push(FieldDef::new(&format!("Y{i:03}"), Num::Count(1), Ty::Integer).idx(idx));
+        }
+    }
+    let contig_idx: Vec<usize> = if zone == Zone::Contig { vec![0, 127, 128, 300] } else { vec![0, 1] };
+    for (i, ci) in contig_idx.iter().enumerate() {
+        h.contigs.push(ContigDef { id: format!("c{i:03}"), length: Some(1000 + i), idx: Some(*ci), ..Default::default() });
+    }
+    h.samples = vec!["s0".into(), "s1".into()];
+    h
+}
+
+/// Records using the sparse ids alone (scalar index) and in lists (vector, mixed widths, every order).
+pub fn sparse_records(h: &Hdr, zone: Zone) -> Vec<(String, Rec)> {
+    let mut out: Vec<(String, Rec)> = Vec::new();
+    // orders over positions in SPARSE_IDX
+    let lists: Vec<(&str, Vec<usize>)> = vec![
+        ("i8+i16", vec![0, 1]),
+        ("i16+i8", vec![1, 0]),
+        ("i16+i32", vec![4, 5]),
+        ("i32+i16", vec![5, 4]),
+        ("i8+i32", vec![0, 7]),
+        ("i32+i8", vec![7, 0]),
+        ("i16+i32+i16", vec![2, 6, 1]),
+        ("i32+i32", vec![6, 7]),
+        ("i32+i8+i16", vec![5, 0, 3]),
+        ("all-ascending", (0..8).collect()),
+        ("all-descending", (0..8).rev().collect()),
+    ];
+    match zone {
+        Zone::Filter => {
+            for (i, f) in h.filters.iter().enumerate() {
+                let mut r = base(h);
+                r.filters = vec![f.id.clone()];
+                out.push((format!("filter-idx{}", SPARSE_IDX[i]), r));
+            }
+            for (n, l) in &lists {
+                let mut r = base(h);
+                r.filters = l.iter().map(|&i| h.filters[i].id.clone()).collect();
+                out.push((format!("filters-{n}"), r));
+            }
+            // with INFO behind the FILTER vector (the lazy record finds INFO from the FILTER length)
+            let mut r = base(h);
+            r.filters = vec![h.filters[7].id.clone(), h.filters[0].id.clone()];
+            r.info = vec![(h.infos[0].id.clone(), Some(Val::Int(40000))), (h.infos[1].id.clone(), Some(Val::Int(-7)))];
+            out.push(("filters-i32+i8-then-info".into(), r));
+        }
+        Zone::Info => {
+            for (i, d) in h.infos.iter().enumerate() {
+                let mut r = base(h);
+                r.info = vec![(d.id.clone(), Some(Val::Int(5 + i as i32)))];
+                r.filters = vec![h.filters[0].id.clone()];
+                out.push((format!("info-key-idx{}", SPARSE_IDX[i]), r));
+            }
+            for (n, l) in &lists {
+                let mut r = base(h);
+                r.info = l.iter().map(|&i| (h.infos[i].id.clone(), Some(Val::Int(1000 * i as i32 - 3)))).collect();
+                out.push((format!("info-keys-{n}"), r));
+            }
+        }
+        Zone::Format => {
+            for (i, d) in h.formats.iter().enumerate().skip(1) {
+                let mut r = base(h);
+                r.format.push(d.id.clone());
+                r.samples[0].push(Some(Val::Int(5)));
+                r.samples[1].push(Some(Val::Int(-200)));
+                out.push((format!("format-key-idx{}", SPARSE_IDX[i - 1]), r));
+            }
+            for (n, l) in &lists {
+                let mut r = base(h);
+                for &i in l {
+                    r.format.push(h.formats[i + 1].id.clone());
+                    r.samples[0].push(Some(Val::Int(i as i32)));
+                    r.samples[1].push(if i % 2 == 0 { None } else { Some(Val::Int(40000 + i as i32)) });
+                }
+                out.push((format!("format-keys-{n}"), r));
+            }
+        }
+        Zone::Contig => {
+            for c in &h.contigs {
+                let mut r = base(h);
+                r.chrom = c.id.clone();
+                out.push((format!("contig-idx{}", c.idx.unwrap_or(0)), r));
+            }
+        }
+    }
+    out
+}
+
 pub struct BigCase {
     pub name: String,
     pub hdr: Hdr,
@@ -157,6 +277,13 @@ pub fn cases(ffs: &[(u32, u32)]) -> Vec<BigCase> {
                     out.push(BigCase { name: format!("ff={}.{} zone={zone:?} entries={total} idx={idx:?}", ff.0, ff.1), hdr, recs });
                 }
             }
+        }
+    }
+    for &ff in ffs {
+        for zone in ZONES {
+            let hdr = sparse_header(ff, zone);
+            let recs = sparse_records(&hdr, zone);
+            out.push(BigCase { name: format!("ff={}.{} sparse-IDX{:?} zone={zone:?}", ff.0, ff.1, SPARSE_IDX), hdr, recs });
         }
     }
     out
